@@ -54,7 +54,7 @@ BOUNDARY = [0, 1, -1, 2, 127, 2**31 - 1, 2**31, -2**31, -2**31 - 1, 2**32 - 1, 2
 FLOATS = ["1.5", "0.1", "-0.0", "0.0", "1e40", "3.4028235e38", "3.4028236e38", "1e-50", "16777217.0", "2.5e-45",
           "1.401298464324817e-45", "7e-46", "123456.789", "-1e39", "4294967296.0", "1e300", "-2.0", "0.30000000000000004",
           "inf_neg", "nan_neg"]
-IDENTS = ["true", "false", "inf", "nan", "t", "f", "True", "False", "FOO", "infinity", "TRUE"]
+IDENTS = ["true", "false", "inf", "nan", "t", "f", "True", "False", "FOO", "infinity", "TRUE", "Infinity", "NaN"]
 
 
 # ------------------------------------------------------------------ standard options (read from the code under test)
@@ -314,6 +314,26 @@ def fixed_schema(ctx, ek):
     return sch
 
 
+def tiny_schema(ctx, where="p3"):
+    """message O { int32 a = 1; string s = 2; O sub = 3; } (proto3: a and s have no presence; or proto2) and
+    extend google.protobuf.MessageOptions { O foo = 50001; } - the smallest schema for replays"""
+    std = std_schema(ctx)
+    sch = Schema()
+    sch.ek = "message"
+    sch.msgs.append({"name": "google.protobuf.MessageOptions", "fields": [], "where": "std", "extendable": False})
+    for f in (std["messages"]["google.protobuf.MessageOptions"] or []):
+        if f["kind"] in ("bool",) and not f["repeated"]:
+            sch.msgs[0]["fields"].append(Field(f["name"], f["number"], f["kind"], targets=f["targets"] or []))
+    imp = where == "p3"
+    kind_a = "int32"
+    if where == "float":
+        where, kind_a = "main", "float"
+    sch.msgs.append({"name": "O", "where": where, "extendable": False,
+                     "fields": [Field("a", 1, kind_a, implicit=imp), Field("s", 2, "string", implicit=imp), Field("sub", 3, ("msg", 1))]})
+    sch.exts.append({"name": "foo", "extendee": 0, "field": Field("foo", 50001, ("msg", 1))})
+    return sch
+
+
 def X(*parts):
     """name path: "(x)" is an extension part, anything else a field part"""
     return [("x", p[1:-1]) if p.startswith("(") else ("f", p) for p in parts]
@@ -362,6 +382,9 @@ def corpus(ek):
             out.append([(X("(x_%s)" % k), ("ident", t))])
         out.append([(X("(x_%s)" % k), ("str", [49]))])
         out.append([(X("(xm)"), LM(("f_" + k, ("ident", "inf")), ("f_float", ("float", "inf_neg"))))])
+        for t in ["Infinity", "INF", "infinity", "NaN", "nan", "Inf", "inF", "nAn", "infinit", "true"]:
+            out.append([(X("(xm)"), LM(("f_" + k, ("ident", t))))])
+        out.append([(X("(xm)"), LM(("rep", ("ident", "Infinity"))))])
     for t in IDENTS:
         out.append([(X("(x_bool)"), ("ident", t))])
         out.append([(X("(xm)"), LM(("f_bool", ("ident", t))))])
